@@ -1478,6 +1478,53 @@ def check_captured(ctx, ses, name, i, text, *_ignored):
             ctx.spec_failure(case, {"argv": got, "tokens_of_the_output": want}, "@$() did not deliver the white-space separated tokens of the captured output verbatim", key)
 
 
+def bracket_merge(words):
+    """the words with everything from a word holding an unmatched `[` up to the word that closes it glued together without the blanks"""
+    out, depth, cur = [], 0, ""
+    for w in words:
+        cur += w
+        depth += w.count("[") - w.count("]")
+        if depth <= 0:
+            out.append(cur)
+            cur, depth = "", 0
+    return out + ([cur] if cur else [])
+
+
+def check_bracket_source(ctx, ses, name, i, src):
+    """a command line of plain words, some of them inside [ ... ] with blanks: every white-space separated word is one argument"""
+    r = ses.run(src + "\n", {})
+    want = src.split()[1:]
+    case = {"stream": name, "source": src}
+    ctx.case(name, (i, src), True, {"source": src})
+    got = r[1][0] if r[0] == "ok" and len(r[1]) == 1 else None
+    if got != want:
+        key = None
+        if is_open("bracket-word-swallows-blanks") and got is not None and got == bracket_merge(want) and "[" in src:
+            key = "bracket-word-swallows-blanks"
+        ctx.spec_failure(case, {"argv": got} if got is not None else {"result": r[:2]}, "the white-space separated words of the command are not its arguments", key)
+
+
+def stream_brackets(ctx, ses, n, name="blanks-inside-brackets"):
+    ctx.stream_rule(
+        name,
+        "directed at one open finding: `rec` followed by plain words, one or two of them a [ ... ] group with blanks inside (`[a b]`, `a[1 2]b`, "
+        "`[ x ]`, nested); oracle = str.split of the line; a failure is the known mechanism only when the observed argv is exactly the words "
+        "with each bracket group glued together without its blanks",
+    )
+    rng = ctx.rng
+    for i in range(n):
+        if ctx.enough_failures():
+            break
+        ws = []
+        for _ in range(rng.randint(1, 4)):
+            if rng.random() < 0.45:
+                inner = rng.choice([" ", "  ", "\t"]).join(rng.choice(["a", "b2", "1", "-x", "c.d", "é"]) for _ in range(rng.randint(1, 3)))
+                ws.append(rng.choice(["", "a", "x="]) + "[" + rng.choice(["", " "]) + inner + rng.choice(["", " "]) + "]" + rng.choice(["", "b", ".txt"]))
+            else:
+                ws.append(rng.choice(["w", "-n", "a.b", "k=v", "7"]))
+        check_bracket_source(ctx, ses, name, i, "rec " + " ".join(ws))
+
+
 # ============================================================================ direct function correspondences
 def stream_literals(ctx, n, name="literal-evaluation"):
     ctx.stream_rule(
@@ -1613,6 +1660,11 @@ def replay_known(ctx, ses):
     for f in ctx.known:
         w = f["witness"]
         before = len(ctx.spec_failures)
+        if "source" in w and "atoms" not in w:
+            check_bracket_source(ctx, ses, "known-witness", f["key"], w["source"])
+            mine = ctx.spec_failures[before:]
+            ctx.replayed(f["key"], any(sf["key"] == f["key"] for sf in mine), mine[0]["observed"] if mine else None)
+            continue
         if "emit_output" in w:
             t = w["emit_output"]
             check_captured(ctx, ses, "known-witness", f["key"], t)
@@ -1667,6 +1719,7 @@ def run(ctx):
         stream_child(ctx, ses, ctx.n(500, 7000))
         stream_known_mechanisms(ctx, ses, ctx.n(150, 2000))
         stream_captured(ctx, ses, ctx.n(1200, 20000))
+        stream_brackets(ctx, ses, ctx.n(60, 600))
     finally:
         ses.close()
 
@@ -1685,6 +1738,19 @@ def search(ctx, reason):
 def replay(ctx, path):
     r = json.loads(open(path).read())
     c = r["case"]
+    if "atoms" not in c and "emit_output" not in c and c.get("stream") in ("blanks-inside-brackets", "known-witness") and "source" in c:
+        translate(ctx)
+        ALL_OPEN[0] = {f["key"] for f in ctx.known if f.get("status") == "open"}
+        ses = Session()
+        try:
+            check_bracket_source(ctx, ses, "replay", 0, c["source"])
+        finally:
+            ses.close()
+        bad = [f for f in ctx.spec_failures if f["key"] is None]
+        for f in ctx.spec_failures:
+            print("property failure:", f["why"], "| observed:", f["observed"], "| known finding:", f["key"])
+        print(f"VIOLATION property={ID} replay={path}" if bad else "no new violation on this input")
+        return common.EXIT_VIOLATION if bad else common.EXIT_OK
     if "emit_output" not in c and ("atoms" not in c or "form" not in c):
         print("this replay names a function-level case; re-run ./check C04 with the same seed")
         return common.EXIT_INFRA
